@@ -195,10 +195,9 @@ class SyncedList(SyncedCollection, MutableSequence):
             if self._root is None:
                 # Replacing all data of the root is destructive, so no load is
                 # required, but the change and the save must not be interleaved
-                # with other writers.
-                with self._thread_lock:
+                # with other writers (same locks, same order as any other write).
+                with self._save_only:
                     self._update(data)
-                    self._save()
             else:
                 # A nested collection is only a part of the data, so the rest
                 # must be up to date before it is saved along with the change.
@@ -271,9 +270,8 @@ class SyncedList(SyncedCollection, MutableSequence):
         if self._root is None:
             # Clearing the root is destructive, so no load is required, but the
             # change and the save must not be interleaved with other writers.
-            with self._thread_lock:
+            with self._save_only:
                 self._data.clear()
-                self._save()
         else:
             # A nested collection is only a part of the data, so the rest must
             # be up to date before it is saved along with the change.
